@@ -162,7 +162,15 @@ structure Prov where
   kid : Option Str     -- GetEncryptedKey(): key id when an encrypted key is present
   sum : Str            -- hex(sha1(id))[8:], 32 hex digits (input computed by the harness)
   pol : Option Pol := none   -- the provisioner's own policy (checked by Store/UpdateProvisioner only)
+  kind : Nat := 0            -- linkedca `Provisioner.Type`
+  dkind : Option Nat := some 0   -- which details message the record carries (`none`: no details)
+  initOK : Bool := true      -- `Init(config)` of the converted provisioner succeeds (claims, keys, name, …)
   deriving DecidableEq, Repr
+
+/-- `ProvisionerToCertificates` can build a provisioner from the record: the details are the ones
+    of its type. (A record for which this is false is stored under its type, reads back as details
+    of that type without content, and the conversion dereferences them: 17718b3, F4.) -/
+def Prov.conv (p : Prov) : Bool := p.dkind == some p.kind
 
 structure PColl where
   byID : Map Str Prov := []
@@ -287,18 +295,28 @@ structure Variant where
   /-- when `reloadPolicyEngines` fails after a policy write, the engine is built from the policy
       just written (`enforceAuthorityPolicy`, 6f70a0d: F2) -/
   fixEnforce : Bool
+  /-- `ProvisionerToCertificates` refuses a record whose details are not the ones of its type
+      (17718b3: F4) -/
+  fixDetails : Bool
+  /-- PROPOSED, not in /repo: when the reload that follows a failed database write fails as well,
+      the cache change is taken back in memory (notes/C16.md, "double failure") -/
+  fixRevert : Bool := false
   deriving DecidableEq, Repr
 
 /-- the tree before the `fix:` commits e3cc9eb (D3) and 80a4538 (D2) -/
-def Variant.coded : Variant := ⟨false, false, false, false, false⟩
+def Variant.coded : Variant := ⟨false, false, false, false, false, false, false⟩
 /-- the tree after e3cc9eb / 80a4538 and before `fix:` 2140646: `Update` repaired, provisioner
     rename still leaves the admin collection keyed by the old name (D26) -/
-def Variant.updateFixed : Variant := ⟨true, false, false, false, false⟩
+def Variant.updateFixed : Variant := ⟨true, false, false, false, false, false, false⟩
 /-- the tree after 2140646 and before 67d968e / 2b0b009 / 6f70a0d: rename reloads from the
     database (F1), policy engine re-read (F2), provisioner policy checked under the new name (F3) -/
-def Variant.renameFixed : Variant := ⟨true, true, false, false, false⟩
+def Variant.renameFixed : Variant := ⟨true, true, false, false, false, false, false⟩
+/-- the tree after 67d968e / 2b0b009 / 6f70a0d and before 17718b3: details of another type accepted (F4) -/
+def Variant.detailsOpen : Variant := ⟨true, true, true, true, true, false, false⟩
 /-- /repo at HEAD: every repair -/
-def Variant.fixed : Variant := ⟨true, true, true, true, true⟩
+def Variant.fixed : Variant := ⟨true, true, true, true, true, true, false⟩
+/-- HEAD plus the proposed in-memory revert after a double failure -/
+def Variant.proposed : Variant := ⟨true, true, true, true, true, true, true⟩
 
 /-- The code modelled by the driver and by the un-suffixed theorems: /repo as it stands. -/
 def current : Variant := Variant.fixed
@@ -459,6 +477,7 @@ structure DB where
   provs : List Prov := []
   adms : List Adm := []
   policy : Option Pol := none        -- the authority policy
+  used : List Str := []              -- reuse keys of tokens seen (`db.UseToken`, table used_ott)
   deriving DecidableEq, Repr
 
 structure Auth where
@@ -535,6 +554,12 @@ def afterFail (f : Faults) (s : Auth) (o : AuthOut) : Auth × AuthOut :=
   let (s, bad) := reload f s
   (s, if bad then .reloadFailed else o)
 
+/-- `afterFail` for the proposed repair: when the reload fails too, `undo` (the cache as it was
+    before the request touched it, recomputed in memory) replaces the cache -/
+def afterFailUndo (v : Variant) (f : Faults) (s : Auth) (o : AuthOut) (undo : Cache → Cache) : Auth × AuthOut :=
+  let r := afterFail f s o
+  if v.fixRevert ∧ r.2 = .reloadFailed then ({ r.1 with cache := undo r.1.cache }, .reloadFailed) else r
+
 def insDB {α : Type} (key : α → Str) (x : α) (l : List α) : List α := insertBy key x l
 
 /-- operations of the authority layer. Identifiers the database would draw at random are inputs. -/
@@ -554,22 +579,29 @@ inductive AOp
 namespace Auth
 
 /-- `removeAdmin` (lock held) -/
-def removeAdmin1 (f : Faults) (s : Auth) (id : Str) : Auth × AuthOut :=
+def removeAdmin1 (v : Variant) (f : Faults) (s : Auth) (id : Str) : Auth × AuthOut :=
   match s.cache.A.remove s.cache.provName id with
   | .crash => (s, .crash)
   | .val (_, some e) => (s, aerrClass e)
   | .val (A, none) =>
+    let adm := s.cache.A.byID.get id
     let s := { s with cache := { s.cache with A := A } }
     let (s, bad) := tick f s
-    if bad then afterFail f s .storeFailed else
+    if bad then afterFailUndo v f s .storeFailed (fun c =>
+      -- put the admin back: `a.admins.Store(adm, p)` with `p` the provisioner it belongs to
+      match adm with
+      | some a => (match c.P.byID.get a.provId with
+        | some p => { c with A := (c.A.store a p.id p.name).1 }
+        | none => c)
+      | none => c) else
     ({ s with db := { s.db with adms := s.db.adms.filter (fun a => decide (a.id ≠ id)) } }, .ok)
 
 /-- the loop of `RemoveProvisioner` over the admins of the provisioner -/
-def removeAdmins (f : Faults) (s : Auth) : List Str → Auth × AuthOut
+def removeAdmins (v : Variant) (f : Faults) (s : Auth) : List Str → Auth × AuthOut
   | [] => (s, .ok)
   | id :: r =>
-    let r1 := removeAdmin1 f s id
-    if r1.2 = .ok then removeAdmins f r1.1 r else r1
+    let r1 := removeAdmin1 v f s id
+    if r1.2 = .ok then removeAdmins v f r1.1 r else r1
 
 /-- outcome class of a refused policy -/
 def polOut : PolCheck → Option AuthOut
@@ -627,17 +659,28 @@ def step (v : Variant) (f : Faults) (s0 : Auth) (op : AOp) : Auth × AuthOut :=
     | .crash => (s, .crash)
     | .val (_, some e) => (s, aerrClass e)
     | .val (A, none) =>
+      let oldT := (s.cache.A.byID.get id).map (·.super)
       let s := { s with cache := { s.cache with A := A } }
       let (s, bad) := tick f s
-      if bad then afterFail f s .storeFailed else
+      if bad then afterFailUndo v f s .storeFailed (fun c =>
+        -- `a.admins.Update(id, {Type: oldType})`
+        match oldT with
+        | some t0 => (match c.A.update v c.provName id t0 with
+          | .val (A0, none) => { c with A := A0 }
+          | _ => c)
+        | none => c) else
       ({ s with db := { s.db with adms := s.db.adms.map (setTy id t) } }, .ok)
-  | .removeAdmin id => removeAdmin1 f s id
+  | .removeAdmin id => removeAdmin1 v f s id
   | .storeProv p =>
+    -- `ProvisionerToCertificates(prov)` comes first
+    if v.fixDetails ∧ p.conv = false then (s, .internalFailure) else
     if s.cache.P.byName.has p.name then (s, .badRequest) else
     if s.cache.P.byTok.has p.tok then (s, .badRequest) else
     match provPolicyCheck s.cache.A p.name p with
     | some o => (s, o)
     | none =>
+    -- `certProv.Init(provisionerConfig)`: "error validating configuration for provisioner"
+    if p.initOK = false then (s, .badRequest) else
     let (s, bad) := tick f s
     if bad then (s, .storeFailed) else
     if s.db.provs.any (fun x => x.id = p.id) then (s, .storeFailed) else
@@ -646,19 +689,27 @@ def step (v : Variant) (f : Faults) (s0 : Auth) (op : AOp) : Auth × AuthOut :=
     | (P, none) => ({ s with cache := { s.cache with P := P } }, .ok)
     | (P, some _) => afterFail f { s with cache := { s.cache with P := P } } .cacheFailed
   | .updateProv p =>
+    if v.fixDetails ∧ p.conv = false then (s, .internalFailure) else
     -- the administrators of the provisioner are registered under the name it has *now*
     let adminsName := if v.fixPolName then (s.cache.provName p.id).getD p.name else p.name
     match provPolicyCheck s.cache.A adminsName p with
     | some o => (s, o)
     | none =>
+    -- `certProv.Init(provisionerConfig)`: here an internal server error ("error initializing provisioner")
+    if p.initOK = false then (s, .internalFailure) else
     match s.cache.P.update p with
     | (_, some .notFound) => (s, .notFound)
     | (P, some _) => ({ s with cache := { s.cache with P := P } }, .badRequest)
     | (P, none) =>
       let renamed := (s.cache.provName p.id) ≠ some p.name
+      let oldP := s.cache.P.byID.get p.id
       let s := { s with cache := { s.cache with P := P } }
       let (s, bad) := tick f s
-      if bad then afterFail f s .storeFailed else
+      if bad then afterFailUndo v f s .storeFailed (fun c =>
+        -- `a.provisioners.Update(old)`
+        match oldP with
+        | some q => { c with P := (c.P.update q).1 }
+        | none => c) else
       let s := { s with db := { s.db with provs := s.db.provs.map (fun q => if q.id = p.id then p else q) } }
       if v.fixReindex ∧ renamed then
         -- `reindexAdmins`: a new admin collection over the updated provisioner collection, every
@@ -673,7 +724,7 @@ def step (v : Variant) (f : Faults) (s0 : Auth) (op : AOp) : Auth × AuthOut :=
     | some p =>
       if s.cache.A.superCount = s.cache.A.superBy p.name then (s, .badRequest) else
       let ids := ((s.cache.A.byProv.get p.name).getD []).map (·.id)
-      let r := removeAdmins f s ids
+      let r := removeAdmins v f s ids
       if r.2 ≠ .ok then r else
       let s := r.1
       match s.cache.P.remove p.id with
@@ -681,7 +732,7 @@ def step (v : Variant) (f : Faults) (s0 : Auth) (op : AOp) : Auth × AuthOut :=
       | (P, none) =>
         let s := { s with cache := { s.cache with P := P } }
         let (s, bad) := tick f s
-        if bad then afterFail f s .storeFailed else
+        if bad then afterFailUndo v f s .storeFailed (fun c => { c with P := (c.P.store p).1 }) else
         ({ s with db := { s.db with provs := s.db.provs.filter (fun q => decide (q.id ≠ id)) } }, .ok)
   | .createPolicy cur p => policyWrite v f s cur p true
   | .updatePolicy cur p => policyWrite v f s cur p false
@@ -828,5 +879,267 @@ def authorizeAdmin (A : AColl) (used : List Str) (r : AdminReq) : List Str × Ad
     | some adm =>
       if adminsPrefix.isPrefixOf r.path ∧ r.method ≠ GET ∧ adm.super = false then (used', .unauthorized)
       else (used', .ok adm)
+
+/-! ## the route table of the admin API (`authority/admin/api/handler.go`, func `Route`)
+
+Every `r.MethodFunc(method, path, middleware(handler))`, with the middleware chain spelled out in
+the order it runs, handler last. The table is re-derived from the source with go/ast on every run
+(stage `routes`) and compared with this one, entry by entry and by count. Paths are relative to
+the `/admin` mount point. -/
+
+structure Route where
+  method : String
+  path : String
+  chain : List String
+  deriving DecidableEq, Repr
+
+def adminRoutes : List Route := [
+  ⟨"GET", "/provisioners/{name}", ["extractAuthorizeTokenAdmin", "requireAPIEnabled", "GetProvisioner"]⟩,
+  ⟨"GET", "/provisioners", ["extractAuthorizeTokenAdmin", "requireAPIEnabled", "GetProvisioners"]⟩,
+  ⟨"POST", "/provisioners", ["extractAuthorizeTokenAdmin", "requireAPIEnabled", "CreateProvisioner"]⟩,
+  ⟨"PUT", "/provisioners/{name}", ["extractAuthorizeTokenAdmin", "requireAPIEnabled", "UpdateProvisioner"]⟩,
+  ⟨"DELETE", "/provisioners/{name}", ["extractAuthorizeTokenAdmin", "requireAPIEnabled", "DeleteProvisioner"]⟩,
+  ⟨"GET", "/admins/{id}", ["extractAuthorizeTokenAdmin", "requireAPIEnabled", "GetAdmin"]⟩,
+  ⟨"GET", "/admins", ["extractAuthorizeTokenAdmin", "requireAPIEnabled", "GetAdmins"]⟩,
+  ⟨"POST", "/admins", ["extractAuthorizeTokenAdmin", "requireAPIEnabled", "CreateAdmin"]⟩,
+  ⟨"PATCH", "/admins/{id}", ["extractAuthorizeTokenAdmin", "requireAPIEnabled", "UpdateAdmin"]⟩,
+  ⟨"DELETE", "/admins/{id}", ["extractAuthorizeTokenAdmin", "requireAPIEnabled", "DeleteAdmin"]⟩,
+  ⟨"GET", "/acme/eab/{provisionerName}/{reference}", ["extractAuthorizeTokenAdmin", "requireAPIEnabled", "loadProvisionerByName", "requireEABEnabled", "GetExternalAccountKeys"]⟩,
+  ⟨"GET", "/acme/eab/{provisionerName}", ["extractAuthorizeTokenAdmin", "requireAPIEnabled", "loadProvisionerByName", "requireEABEnabled", "GetExternalAccountKeys"]⟩,
+  ⟨"POST", "/acme/eab/{provisionerName}", ["extractAuthorizeTokenAdmin", "requireAPIEnabled", "loadProvisionerByName", "requireEABEnabled", "CreateExternalAccountKey"]⟩,
+  ⟨"DELETE", "/acme/eab/{provisionerName}/{id}", ["extractAuthorizeTokenAdmin", "requireAPIEnabled", "loadProvisionerByName", "requireEABEnabled", "DeleteExternalAccountKey"]⟩,
+  ⟨"GET", "/policy", ["extractAuthorizeTokenAdmin", "requireAPIEnabled", "checkAction(true)", "GetAuthorityPolicy"]⟩,
+  ⟨"POST", "/policy", ["extractAuthorizeTokenAdmin", "requireAPIEnabled", "checkAction(true)", "CreateAuthorityPolicy"]⟩,
+  ⟨"PUT", "/policy", ["extractAuthorizeTokenAdmin", "requireAPIEnabled", "checkAction(true)", "UpdateAuthorityPolicy"]⟩,
+  ⟨"DELETE", "/policy", ["extractAuthorizeTokenAdmin", "requireAPIEnabled", "checkAction(true)", "DeleteAuthorityPolicy"]⟩,
+  ⟨"GET", "/provisioners/{provisionerName}/policy", ["extractAuthorizeTokenAdmin", "requireAPIEnabled", "checkAction(false)", "loadProvisionerByName", "GetProvisionerPolicy"]⟩,
+  ⟨"POST", "/provisioners/{provisionerName}/policy", ["extractAuthorizeTokenAdmin", "requireAPIEnabled", "checkAction(false)", "loadProvisionerByName", "CreateProvisionerPolicy"]⟩,
+  ⟨"PUT", "/provisioners/{provisionerName}/policy", ["extractAuthorizeTokenAdmin", "requireAPIEnabled", "checkAction(false)", "loadProvisionerByName", "UpdateProvisionerPolicy"]⟩,
+  ⟨"DELETE", "/provisioners/{provisionerName}/policy", ["extractAuthorizeTokenAdmin", "requireAPIEnabled", "checkAction(false)", "loadProvisionerByName", "DeleteProvisionerPolicy"]⟩,
+  ⟨"GET", "/acme/policy/{provisionerName}/reference/{reference}", ["extractAuthorizeTokenAdmin", "requireAPIEnabled", "checkAction(false)", "loadProvisionerByName", "requireEABEnabled", "loadExternalAccountKey", "GetACMEAccountPolicy"]⟩,
+  ⟨"GET", "/acme/policy/{provisionerName}/key/{keyID}", ["extractAuthorizeTokenAdmin", "requireAPIEnabled", "checkAction(false)", "loadProvisionerByName", "requireEABEnabled", "loadExternalAccountKey", "GetACMEAccountPolicy"]⟩,
+  ⟨"POST", "/acme/policy/{provisionerName}/reference/{reference}", ["extractAuthorizeTokenAdmin", "requireAPIEnabled", "checkAction(false)", "loadProvisionerByName", "requireEABEnabled", "loadExternalAccountKey", "CreateACMEAccountPolicy"]⟩,
+  ⟨"POST", "/acme/policy/{provisionerName}/key/{keyID}", ["extractAuthorizeTokenAdmin", "requireAPIEnabled", "checkAction(false)", "loadProvisionerByName", "requireEABEnabled", "loadExternalAccountKey", "CreateACMEAccountPolicy"]⟩,
+  ⟨"PUT", "/acme/policy/{provisionerName}/reference/{reference}", ["extractAuthorizeTokenAdmin", "requireAPIEnabled", "checkAction(false)", "loadProvisionerByName", "requireEABEnabled", "loadExternalAccountKey", "UpdateACMEAccountPolicy"]⟩,
+  ⟨"PUT", "/acme/policy/{provisionerName}/key/{keyID}", ["extractAuthorizeTokenAdmin", "requireAPIEnabled", "checkAction(false)", "loadProvisionerByName", "requireEABEnabled", "loadExternalAccountKey", "UpdateACMEAccountPolicy"]⟩,
+  ⟨"DELETE", "/acme/policy/{provisionerName}/reference/{reference}", ["extractAuthorizeTokenAdmin", "requireAPIEnabled", "checkAction(false)", "loadProvisionerByName", "requireEABEnabled", "loadExternalAccountKey", "DeleteACMEAccountPolicy"]⟩,
+  ⟨"DELETE", "/acme/policy/{provisionerName}/key/{keyID}", ["extractAuthorizeTokenAdmin", "requireAPIEnabled", "checkAction(false)", "loadProvisionerByName", "requireEABEnabled", "loadExternalAccountKey", "DeleteACMEAccountPolicy"]⟩,
+  ⟨"POST", "/provisioners/{provisionerName}/webhooks", ["extractAuthorizeTokenAdmin", "requireAPIEnabled", "loadProvisionerByName", "CreateProvisionerWebhook"]⟩,
+  ⟨"PUT", "/provisioners/{provisionerName}/webhooks/{webhookName}", ["extractAuthorizeTokenAdmin", "requireAPIEnabled", "loadProvisionerByName", "UpdateProvisionerWebhook"]⟩,
+  ⟨"DELETE", "/provisioners/{provisionerName}/webhooks/{webhookName}", ["extractAuthorizeTokenAdmin", "requireAPIEnabled", "loadProvisionerByName", "DeleteProvisionerWebhook"]⟩
+]
+
+/-- the middleware that runs `AuthorizeAdminToken` (`extractAuthorizeTokenAdmin`) -/
+def authMw : String := "extractAuthorizeTokenAdmin"
+
+/-- `extractAuthorizeTokenAdmin(next)`: `next` — everything after it in the chain, the handler
+    included — runs only when the token check returned an administrator -/
+def Route.pastAuth (rt : Route) (authz : AdminAuthz) : Bool :=
+  match rt.chain with
+  | m :: _ => if m = authMw then (match authz with | .ok _ => true | _ => false) else true
+  | [] => true
+
+/-- an admin-API request as the middleware sees it (`extractAuthorizeTokenAdmin`): the token check
+    against the running CA's administrator index and the *stored* set of used tokens; the reuse
+    key is written to the database, so it survives restarts -/
+def Auth.request (s : Auth) (r : AdminReq) : Auth × AdminAuthz :=
+  let res := authorizeAdmin s.cache.A s.db.used r
+  ({ s with db := { s.db with used := res.1 } }, res.2)
+
+/-- what can happen to a running CA, as far as tokens are concerned -/
+inductive Event
+  | request (r : AdminReq)
+  | op (o : AOp) (f : Faults)
+  deriving DecidableEq, Repr
+
+def Auth.event (v : Variant) (s : Auth) : Event → Auth × Option AdminAuthz
+  | .request r => let x := s.request r; (x.1, some x.2)
+  | .op o f => ((Auth.step v f s o).1, none)
+
+def Auth.events (v : Variant) (s : Auth) : List Event → Auth
+  | [] => s
+  | e :: r => Auth.events v (s.event v e).1 r
+
+/-! ### request validation in front of the authority (claims, templates, webhooks)
+
+`api.CreateProvisioner` / `UpdateProvisioner` run `authority.ValidateClaims` and
+`validateTemplates` before `StoreProvisioner` / `UpdateProvisioner` is called; the webhook
+sub-router runs `validateWebhook` and its own checks before `UpdateProvisioner`. A refusal here
+returns before the authority is touched. -/
+
+/-- one duration string of a claims block, as `provisioner.NewDuration` reads it -/
+inductive Dur
+  | absent                 -- ""
+  | bad                    -- does not parse
+  | val (n : Int)          -- parsed (nanoseconds)
+  deriving DecidableEq, Repr
+
+def Dur.present : Dur → Bool
+  | .absent => false
+  | _ => true
+
+/-- `(*Duration).Value()`: 0 for a nil pointer -/
+def Dur.value : Dur → Int
+  | .val n => n
+  | _ => 0
+
+/-- the string parses and is not negative -/
+def Dur.wellFormed : Dur → Bool
+  | .absent => true
+  | .bad => false
+  | .val n => decide (0 ≤ n)
+
+structure Durs where
+  min : Dur := .absent
+  max : Dur := .absent
+  dflt : Dur := .absent
+  deriving DecidableEq, Repr
+
+/-- `authority.ValidateDurations`, `true` = accepted. `cmpFixed = false` is the code as it stands:
+    its last comparison, announced as "default duration cannot be greater than max duration",
+    compares min with default once more (notes/C16.md). -/
+def validateDurations (cmpFixed : Bool) (d : Durs) : Bool :=
+  d.min.wellFormed && d.max.wellFormed && d.dflt.wellFormed &&
+  !(d.min.present && d.max.present && decide (d.min.value > d.max.value)) &&
+  !(d.min.present && d.dflt.present && decide (d.min.value > d.dflt.value)) &&
+  !(d.dflt.present && d.max.present &&
+      (if cmpFixed then decide (d.dflt.value > d.max.value) else decide (d.min.value > d.dflt.value)))
+
+/-- `authority.ValidateClaims`: the durations blocks that are present (X.509, SSH user, SSH host) -/
+def validateClaims (cmpFixed : Bool) (blocks : List Durs) : Bool := blocks.all (validateDurations cmpFixed)
+
+/-- what the create/update handler establishes before it calls the authority -/
+structure ProvBody where
+  parses : Bool            -- `read.ProtoJSON`
+  claims : List Durs
+  templatesOK : Bool       -- `validateTemplates` (x509util / sshutil validators; opaque)
+  deriving Repr
+
+/-- `none`: the body reaches `StoreProvisioner` / `UpdateProvisioner`; `some o`: refused before -/
+def provBodyCheck (cmpFixed : Bool) (b : ProvBody) : Option AuthOut :=
+  if !b.parses then some .badRequest
+  else if !validateClaims cmpFixed b.claims then some .badRequest
+  else if !b.templatesOK then some .badRequest
+  else none
+
+/-- a webhook body as `validateWebhook` and the create handler look at it -/
+structure WebhookBody where
+  parses : Bool            -- `read.ProtoJSON`
+  nameGiven : Bool
+  urlParses : Bool         -- `url.Parse`
+  hostGiven : Bool
+  https : Bool
+  userinfo : Bool          -- `parsedURL.User != nil`
+  kindKnown : Bool         -- a declared kind other than NO_KIND
+  secretGiven : Bool
+  idGiven : Bool
+  nameTaken : Bool         -- the provisioner already has a webhook with that name
+  deriving DecidableEq, Repr
+
+inductive WebhookOut
+  | proceed                -- `auth.UpdateProvisioner` is called with the webhook appended
+  | badRequest
+  | conflict
+  deriving DecidableEq, Repr
+
+/-- `CreateProvisionerWebhook` up to the call of `UpdateProvisioner` -/
+def createWebhookCheck (b : WebhookBody) : WebhookOut :=
+  if !b.parses then .badRequest
+  else if !b.nameGiven then .badRequest
+  else if !b.urlParses then .badRequest
+  else if !b.hostGiven then .badRequest
+  else if !b.https then .badRequest
+  else if b.userinfo then .badRequest
+  else if !b.kindKnown then .badRequest
+  else if b.secretGiven then .badRequest
+  else if b.idGiven then .badRequest
+  else if b.nameTaken then .conflict
+  else .proceed
+
+/-- the kinds of provisioner details there are; `ProvisionerToCertificates` accepts a record iff
+    its details are the ones `admin.UnmarshalProvisionerDetails` would create for its type. The
+    numbers are linkedca's `Provisioner_Type` values. -/
+def provisionerKinds : List Nat := [1, 2, 3, 4, 5, 6, 7, 8, 9, 10, 11]
+
+/-- `(*Claimer).Validate` as run by every provisioner's `Init`: the X.509 durations of the claims,
+    each replaced by the authority's global claim `g = (min, max, default)` when not given, must be
+    positive and ordered. (SSH durations are not looked at.) -/
+def claimerValidate (g : Int × Int × Int) (d : Durs) : Bool :=
+  -- a default given without min / max moves the bound it would otherwise violate
+  let mn := if d.min.present then d.min.value
+            else if d.dflt.present && decide (d.dflt.value < g.1) then d.dflt.value else g.1
+  let mx := if d.max.present then d.max.value
+            else if d.dflt.present && decide (d.dflt.value > g.2.1) then d.dflt.value else g.2.1
+  let df := if d.dflt.present then d.dflt.value else g.2.2
+  decide (0 < mn) && decide (0 < mx) && decide (0 < df) && decide (mn ≤ mx) && decide (mn ≤ df) && decide (df ≤ mx)
+
+/-- `config.GlobalProvisionerClaims`: 5m, 24h, 24h (nanoseconds) -/
+def globalClaims : Int × Int × Int := (300000000000, 86400000000000, 86400000000000)
+
+/-! ### the order of checks, writes and reloads in the authority's write methods
+
+The calls that matter — the admin database, the two collections, the conversion, `Init`, the policy
+checks and the reloads — in source order, per method; re-derived from authority/admins.go,
+provisioners.go and policy.go with go/ast on every run and compared with this table
+(stage `routes`, lines `order …`). `Auth.step` was written from this order. -/
+
+def writeOrder : List (String × List String) := [
+  ("StoreAdmin", ["admins.LoadBySubProv", "adminDB.CreateAdmin", "admins.Store", "ReloadAdminResources"]),
+  ("UpdateAdmin", ["admins.Update", "adminDB.UpdateAdmin", "ReloadAdminResources"]),
+  ("RemoveAdmin", ["removeAdmin"]),
+  ("removeAdmin", ["admins.Remove", "adminDB.DeleteAdmin", "ReloadAdminResources"]),
+  ("StoreProvisioner", ["ProvisionerToCertificates", "provisioners.LoadByName", "provisioners.LoadByTokenID",
+    "generateProvisionerConfig", "checkProvisionerPolicy", "certProv.Init", "adminDB.CreateProvisioner",
+    "ProvisionerToCertificates", "certProv.Init", "provisioners.Store", "ReloadAdminResources"]),
+  ("UpdateProvisioner", ["ProvisionerToCertificates", "generateProvisionerConfig", "provisioners.Load",
+    "checkProvisionerPolicy", "certProv.Init", "provisioners.Update", "adminDB.UpdateProvisioner",
+    "ReloadAdminResources", "reindexAdmins"]),
+  ("RemoveProvisioner", ["provisioners.Load", "admins.SuperCount", "admins.SuperCountByProvisioner",
+    "admins.LoadByProvisioner", "removeAdmin", "provisioners.Remove", "adminDB.DeleteProvisioner",
+    "ReloadAdminResources"]),
+  ("CreateAuthorityPolicy", ["checkAuthorityPolicy", "adminDB.CreateAuthorityPolicy", "reloadPolicyEngines",
+    "enforceAuthorityPolicy"]),
+  ("UpdateAuthorityPolicy", ["checkAuthorityPolicy", "adminDB.UpdateAuthorityPolicy", "reloadPolicyEngines",
+    "enforceAuthorityPolicy"]),
+  ("RemoveAuthorityPolicy", ["adminDB.DeleteAuthorityPolicy", "reloadPolicyEngines", "enforceAuthorityPolicy"])]
+
+/-- calls that can refuse the request without having changed anything -/
+def isCheckCall (c : String) : Bool :=
+  c ∈ ["ProvisionerToCertificates", "provisioners.LoadByName", "provisioners.LoadByTokenID", "provisioners.Load",
+       "admins.LoadBySubProv", "admins.SuperCount", "admins.SuperCountByProvisioner", "checkProvisionerPolicy",
+       "checkAuthorityPolicy", "certProv.Init", "generateProvisionerConfig"]
+
+/-- calls that write to the admin database -/
+def isDBWrite (c : String) : Bool :=
+  c ∈ ["adminDB.CreateAdmin", "adminDB.UpdateAdmin", "adminDB.DeleteAdmin", "adminDB.CreateProvisioner",
+       "adminDB.UpdateProvisioner", "adminDB.DeleteProvisioner", "adminDB.CreateAuthorityPolicy",
+       "adminDB.UpdateAuthorityPolicy", "adminDB.DeleteAuthorityPolicy"]
+
+/-- calls that change what the running CA serves -/
+def isCacheWrite (c : String) : Bool :=
+  c ∈ ["admins.Store", "admins.Update", "admins.Remove", "provisioners.Store", "provisioners.Update",
+       "provisioners.Remove", "removeAdmin", "reindexAdmins", "reloadPolicyEngines", "enforceAuthorityPolicy"]
+
+def firstIdxOf (p : String → Bool) (l : List String) : Nat := (l.takeWhile (fun c => !p c)).length
+
+/-! ### which provisioner issued the presented certificate (`LoadProvisionerByCertificate`) -/
+
+/-- what the CA has on the presented leaf certificate -/
+structure CertOrigin where
+  recorded : Option Str     -- id of the issuing provisioner in the certificate's database record (`db.CertificateData`)
+  extName : Option Str      -- name in the certificate's provisioner extension
+  deriving DecidableEq, Repr
+
+/-- `LoadProvisionerByCertificate`: the provisioner with the recorded **id** when it is still there
+    (`unsafeLoadProvisionerFromDatabase`), otherwise the one that now carries the name in the
+    extension (`unsafeLoadProvisionerFromExtension`; a certificate without extension maps to nothing) -/
+def PColl.byCertificate (P : PColl) (o : CertOrigin) : Option Prov :=
+  match o.recorded.bind P.byID.get with
+  | some p => some p
+  | none => o.extName.bind P.byName.get
+
+/-- an admin-API request whose issuing provisioner is resolved by the running CA -/
+def Auth.requestFrom (s : Auth) (o : CertOrigin) (r : AdminReq) : Auth × AdminAuthz :=
+  s.request { r with prov := (s.cache.P.byCertificate o).map (·.name) }
 
 end Verif.Admin
